@@ -129,6 +129,7 @@ def scan_rust(path):
                 fm = _M([None, hm.group(1), item[hm.end():j - 1], rm.group(1) if rm else None])
             if fm:
                 params = []
+                pnames = []
                 for p in split_top(fm.group(2)):
                     if not p:
                         continue
@@ -139,7 +140,8 @@ def scan_rust(path):
                     if not pm:
                         broken('cannot parse parameter %r of %s' % (p, fm.group(1)))
                     params.append(pm.group(2).strip())
-                fns.append({'name': fm.group(1), 'params': params, 'ret': (fm.group(3) or '').strip()})
+                    pnames.append(pm.group(1))
+                fns.append({'name': fm.group(1), 'params': params, 'pnames': pnames, 'ret': (fm.group(3) or '').strip()})
                 continue
             sm = re.match(r'(?:pub\s+)?static\s+(?:mut\s+)?(\w+)\s*:\s*(.+)$', item)
             if sm:
@@ -252,7 +254,8 @@ def check(real, cdef, inc, work):
             records[n['name']] = flds
         elif k == 'FunctionDecl':
             params = [x['type'].get('desugaredQualType', x['type']['qualType']) for x in n.get('inner', []) if x.get('kind') == 'ParmVarDecl']
-            cfuncs[n['name']] = {'ret': split_fn_type(n['type']['qualType']), 'params': params, 'variadic': n.get('variadic', False), 'inline': n.get('inline', False) or n.get('storageClass') == 'static'}
+            pnames = [x.get('name', '') for x in n.get('inner', []) if x.get('kind') == 'ParmVarDecl']
+            cfuncs[n['name']] = {'ret': split_fn_type(n['type']['qualType']), 'params': params, 'pnames': pnames, 'variadic': n.get('variadic', False), 'inline': n.get('inline', False) or n.get('storageClass') == 'static'}
         elif k == 'VarDecl':
             cvars[n['name']] = n['type'].get('desugaredQualType', n['type']['qualType'])
     # ---- the library itself, built from the working tree
@@ -445,6 +448,13 @@ def check(real, cdef, inc, work):
             if rc != cc:
                 viol('abi|fn|%s|param%d' % (name, i), 'parameter %d of %s: binding %s (%s), header %s (%s)' % (i, name, rp, rc, cp, cc), item)
                 disagreements += 1
+        # parameter ORDER by name: machine types cannot tell two reals apart. Where the binding and the header use the same set of
+        # parameter names (trailing underscores ignored), the names must come in the same order
+        rn = [x.rstrip('_') for x in fn.get('pnames', []) if x != '...']
+        cn = [x.rstrip('_') for x in c.get('pnames', [])]
+        if len(rn) == len(cn) and all(cn) and sorted(rn) == sorted(cn) and len(set(rn)) == len(rn) and rn != cn:
+            viol('abi|fn|%s|param-order' % name, 'parameters of %s are named %s in the binding but %s in the header: same names, different order' % (name, ', '.join(rn), ', '.join(cn)), item)
+            disagreements += 1
         rr = rust_class(fn['ret'], real, snames)
         cr = 'fnptr' if c['ret'] == '__fnptr__' else c_class(c['ret'], typedefs)
         if rr != cr:
